@@ -634,7 +634,7 @@ def one(run, props, labels, options):
     inp = {"labels": labels, "options": options}
     if props == {"C06"}:
         run.case(key, nontrivial=len(labels) > 1)
-        run.guard(lambda: check_c06(run, labels, options, run.rng), "C06.exception", inp)
+        run.guard(lambda: check_c06(run, labels, options, run.rng), "C06.exception", inp, calls=12)   # up to a dozen layouts
         return
     ok, res = run.guard(lambda: run_force(labels, options), "%s.exception" % sorted(props)[0], inp)
     if not ok:
